@@ -5,8 +5,8 @@
    io.Writer.Write calls (see [mout]); C18 injects a failing Write into that structure.
 
    Things that are deliberately NOT totalised away (each is exercised by the correspondence check):
-   * WriteData sizes its first packet with calcPacketAdaptationFieldLength, which is uint8 arithmetic
-     (Gen/Preds.v), while writePacket checks the real size (packetAdaptationFieldSize);
+   * WriteData and writePacket size the adaptation field with packetAdaptationFieldSize (int, Gen/Preds.v),
+     the length byte written is calcPacketAdaptationFieldLength (uint8);
    * writePacket's second size test (after sync byte, header and adaptation field have been handed to
      the writer) is kept in Model/Packet.v; MuxerProofs.v shows it can no longer fire, so a failing
      writePacket emits nothing;
@@ -379,7 +379,7 @@ Fixpoint wd_loop (fuel : nat) (pid : Z) (h : PESHeader) (cc : wrappingCounter)
     | O => lo_stop cc Panic
     | S k =>
       let pktLen := 1 + C_mpegTsPacketHeaderSize +
-                    match af with Some a => 1 + calcPacketAdaptationFieldLength a | None => 0 end in
+                    match af with Some a => packetAdaptationFieldSize a | None => 0 end in
       let bytesAvailable := C_MpegTsPacketSize - pktLen in
       let hasAf := match af with Some _ => true | None => false end in
       if payloadStart && (bytesAvailable <? C_pesHeaderLength + calcPESOptionalHeaderLength (PESHeader_OptionalHeader h)) then
